@@ -13,8 +13,8 @@ from fractions import Fraction
 
 from harness import expr
 
-_LAG_RE = re.compile(r'^([A-Za-z_][A-Za-z_0-9]*)\((?:k|t)-1\)$')
-_IC_RE = re.compile(r'^([A-Za-z_][A-Za-z_0-9]*)\(0\)$')
+_LAG_RE = re.compile(r'^([^\W\d]\w*)\((?:k|t)-1\)$')
+_IC_RE = re.compile(r'^([^\W\d]\w*)\(0\)$')
 
 
 class ParseProblem(ValueError):
